@@ -30,6 +30,11 @@ def main(argv=None):
 
 if __name__ == '__main__':
     rc = main()
+    try:
+        from simcore import core as _core
+        _core.kill_all_pools()
+    except Exception:
+        pass
     sys.stdout.flush()
     sys.stderr.flush()
     # skip interpreter teardown: a detected out-of-bounds write by the code under
